@@ -14,6 +14,10 @@ Round 4: collapses are handed on only behind the test that every part of the
 stop message is a Collapse* condition; a list of CollapseAt targets is indexed
 per parameter (repair 4efaa35); impose_at pairs targets with in-range indices
 (repair b488457).
+Round 5 (hunt): collapse_cost's edge regions end at samples (repair d6e50c0);
+impose_at / impose_as references re-derived (dtype widening, in-range pairs;
+repairs 94e41ab, 77f135c); measure collapses reach impose_measure as dicts
+whatever the mask format (repair 83961c8).
 NOT decided: detectors' numeric results, that the solve terminates, measure
 collapses' numeric effects (C18).
 """
@@ -258,6 +262,7 @@ def exact_imposition(ctx):
     _same(ctx, f, """def func(x, *args, **kwds):
     xtype = type(x)
     x = asarray(list(x))
+    x = x.astype(result_type(x, asarray(target)))
     n = len(x)
     if hasattr(target, '__len__'):
         at = [(i,t) for (i,t) in zip(index, target) if -n <= i < n]
@@ -276,7 +281,8 @@ def exact_imposition(ctx):
         for k in j:
             try: x[k] = x[i]
             except IndexError: pass
-    pairs = list(mask)
+    n = len(x)
+    pairs = [m for m in mask if all(-n <= k < n for k in m)]
     while pairs:
         indx,trac = zip(*pairs)
         trac = set(trac)
@@ -535,3 +541,48 @@ def cost_collapse_regions_end_at_samples(ctx):
     ctx.check(not bad, 'collapse_cost#edges', 'every region edge is par[<index>] (%d edges)' % len(idx),
               'collapse_cost builds a region edge as %s: the gap length is added to the parameter value instead of the sample index'
               % (unparse(bad[0][2])[:60] if bad else ''), f, bad[0][1] if bad else idx[0][1], statement='region edge = parameter value + gap length')
+
+
+@rule('C11.o', min_instances=2)
+def measure_collapses_reach_the_transform_as_dicts(ctx):
+    """CollapseWeight / CollapsePosition report their collapse in the format of their mask - {measure: indices}, a set of (measure, index) tuples, or the 'where' pair of tuples; all three are accepted masks. impose_measure (which applies them) iterates `.items()`: unless it handles the other formats itself, __collapse_constraints must hand it each collapse through a converter that returns a dict on every path - otherwise a solve whose mask was given as a set or in where format dies with AttributeError at the first evaluation after the collapse"""
+    f = ctx.func(AS + '.__collapse_constraints')
+    im = ctx.func('mystic.constraints:impose_measure')
+    handles = any(isinstance(n, ast.Name) and n.id == 'set' for t_ in ast.walk(im.node)
+                  if isinstance(t_, ast.Compare) or (isinstance(t_, ast.Call) and isinstance(t_.func, ast.Name) and t_.func.id == 'isinstance') for n in ast.walk(t_))
+    calls = calls_where(f.node, lambda c: callee_text(c).split('.')[-1] == 'impose_measure', include_lambda=False)
+    ctx.need(calls, '__collapse_constraints: impose_measure is no longer called')
+    c = calls[0]
+    args = list(c.args[1:3]) + [k.value for k in c.keywords if k.arg in ('tracking', 'noweight')]
+    ctx.need(len(args) >= 2, '__collapse_constraints: impose_measure is not given the position and weight collapses')
+    local_defs = {n.name: n for n in ast.walk(f.node) if isinstance(n, ast.FunctionDef) and n is not f.node}
+
+    def returns_dict(fn):
+        p0 = fn.args.args[0].arg if fn.args.args else None
+        dict_locals = set(t_.id for s in ast.walk(fn) if isinstance(s, ast.Assign) and isinstance(s.value, (ast.Dict, ast.DictComp)) or
+                          (isinstance(s, ast.Assign) and isinstance(s.value, ast.Call) and isinstance(s.value.func, ast.Name) and s.value.func.id == 'dict')
+                          for t_ in s.targets if isinstance(t_, ast.Name))
+        rets = [r for r in ast.walk(fn) if isinstance(r, ast.Return)]
+        if not rets:
+            return False
+        for r in rets:
+            v = r.value
+            if isinstance(v, (ast.Dict, ast.DictComp)) or (isinstance(v, ast.Call) and isinstance(v.func, ast.Name) and v.func.id == 'dict'):
+                continue
+            if isinstance(v, ast.Name) and v.id in dict_locals:
+                continue
+            if isinstance(v, ast.Name) and v.id == p0:
+                g = [' '.join(unparse(t_).split()) for t_, tr, _ in guards_of(r) if tr]
+                if any(x in ('type(%s) is dict' % p0, 'isinstance(%s, dict)' % p0) for x in g):
+                    continue
+            return False
+        return True
+    for i, a in enumerate(args[:2]):
+        what = ('CollapsePosition', 'CollapseWeight')[i]
+        elt = a.elt if isinstance(a, (ast.ListComp, ast.GeneratorExp)) else a
+        raw = isinstance(elt, ast.Subscript) and unparse(elt.value) == 'collapses'
+        conv = isinstance(elt, ast.Call) and isinstance(elt.func, ast.Name) and elt.func.id in local_defs and returns_dict(local_defs[elt.func.id])
+        ctx.need(raw or conv or handles, '__collapse_constraints: cannot tell in which format the %s collapses reach impose_measure (%s)' % (what, unparse(elt)[:60]))
+        ctx.check(conv or handles, '__collapse_constraints#%s-format' % what, 'every accepted collapse format reaches impose_measure as a dict',
+                  '__collapse_constraints hands the %s collapse to impose_measure as reported: a collapse in set-of-tuples or where format (the format of the mask the user gave) has no .items(), '
+                  'so the first evaluation after the collapse raises AttributeError and the solve never terminates normally' % what, f, enclosing_stmt(c))
